@@ -63,7 +63,7 @@ LEVEL = "exploration"
 
 METRICS = ("BRANCH", "LINE", "CHECKED")
 SUBSETS = tuple(tuple(m for i, m in enumerate(METRICS) if mask >> i & 1) for mask in range(8))
-QUICK_SAMPLE = 4          # quick tier: size-3 programs with shard_of(name, QUICK_SAMPLE) == 0
+QUICK_SAMPLE = 6          # quick tier: size-3 programs with shard_of(name, QUICK_SAMPLE) == 0
 
 # ------------------------------------------------------------------ C01 extra programs
 # (name, tags, module source).  Effects the progen grammar never produces: stdout, global and
@@ -1082,9 +1082,9 @@ def shard(col, tier, k, nshards):
                 # determinism gate: the same observation twice
                 first = False
                 path = progen.write_program(scratch, name + "_c01_gate", source)
-                mod = load_plain(name + "_c01_gate", path)
-                o1 = observe(mod, "u:lt+gt:bool", "src:1")
-                o2 = observe(mod, "u:lt+gt:bool", "src:1")
+                o1 = observe(load_plain(name + "_c01_gate", path), "u:lt+gt:bool", "src:1")
+                o2 = observe(load_plain(name + "_c01_gate", path), "u:lt+gt:bool", "src:1")
+                sys.modules.pop(name + "_c01_gate", None)
                 os.remove(path)
                 if {k_: v for k_, v in o1.items() if k_ != "exc"} != {k_: v for k_, v in o2.items() if k_ != "exc"}:
                     raise RuntimeError(f"determinism gate failed for {name}")
